@@ -384,19 +384,20 @@ Section WithFacts.
     end.
 
   (* every destination registers class c; the caller defaults are all absent or all present *)
+  Fixpoint uniform_go (k : nat) (c : dcls) (defs : list vt) (i : nat) (l : forest) : res (list (string * vt)) :=
+    match l with
+    | [] => Ok []
+    | (d, _, _) :: r =>
+        match uni_fields k i (snd c) defs, uniform_go k c defs (S i) r with
+        | Ok fs, Ok rest => Ok ((d, VD (fst c) fs) :: rest)
+        | Err e, _ => Err e
+        | _, Err e => Err e
+        end
+    end.
+  Definition uniform_defaults (f : forest) : list vt :=
+    match all_some (map (fun e : entry => snd e) f) with Some ds => ds | None => [] end.
   Definition parse_uniform (c : dcls) (f : forest) : res (list (string * vt)) :=
-    let k := List.length f in
-    let defs := match all_some (map (fun e : entry => snd e) f) with Some ds => ds | None => [] end in
-    (fix go (i : nat) (l : forest) : res (list (string * vt)) :=
-       match l with
-       | [] => Ok []
-       | (d, _, _) :: r =>
-           match uni_fields k i (snd c) defs, go (S i) r with
-           | Ok fs, Ok rest => Ok ((d, VD (fst c) fs) :: rest)
-           | Err e, _ => Err e
-           | _, Err e => Err e
-           end
-       end) 0 f.
+    uniform_go (List.length f) c (uniform_defaults f) 0 f.
 
   (* ---------- arbitrary forests: the store of dataclass wrappers ---------- *)
   Record lf := mklf { lf_name : string; lf_ty : ty; lf_d : value; lf_fac : bool; lf_manual : option value }.
